@@ -80,7 +80,26 @@ type CountingFilerStore struct {
 	prefixedNonEmpty int64
 	restarts         int64 // calls after the first of a request that start again from the empty name
 	exceeded         bool
+	deletes          int64
 	TotalListCalls   int64
+}
+
+// DeleteEntry passes through and counts (TakeDeletes tells a driver whether a listing
+// removed expired entries that it has to put back before the next request).
+func (c *CountingFilerStore) DeleteEntry(ctx context.Context, fp util.FullPath) error {
+	c.mu.Lock()
+	c.deletes++
+	c.mu.Unlock()
+	return c.FilerStore.DeleteEntry(ctx, fp)
+}
+
+// TakeDeletes returns the number of DeleteEntry calls since the last TakeDeletes.
+func (c *CountingFilerStore) TakeDeletes() int64 {
+	c.mu.Lock()
+	defer c.mu.Unlock()
+	n := c.deletes
+	c.deletes = 0
+	return n
 }
 
 func NewCountingFilerStore(inner filer.FilerStore) *CountingFilerStore {
